@@ -168,6 +168,24 @@ impl ClientSession {
     }
 }
 
+/// The crate-private fields of a `ClientOptions` value, as the channel constructors read them:
+/// (channel_logging, max_queued_requests, decode_level, max_timeouts)
+pub fn client_options_fields(
+    options: &crate::ClientOptions,
+) -> (
+    crate::ChannelLoggingMode,
+    usize,
+    crate::DecodeLevel,
+    Option<std::num::NonZeroUsize>,
+) {
+    (
+        options.channel_logging,
+        options.max_queued_requests,
+        options.decode_level,
+        options.max_timeouts,
+    )
+}
+
 /// Run the production server `SessionTask` over a caller supplied stream until it ends
 pub async fn run_server_session<T: RequestHandler>(
     io: Box<dyn VerifIo>,
